@@ -125,7 +125,10 @@ class Prov:
             v = k["str"]
         elif v is None and "bytes" in k:
             v = "0x" + k["bytes"]
-        return ("const", v, k.get("c"), k.get("ty"))
+        path = k.get("c")
+        if path and k.get("ga"):
+            path = "%s<%s>" % (path, k["ga"])
+        return ("const", v, path, k.get("ty"))
 
     def place(self, pl, bi, si, depth=0):
         base = self.local(pl["l"], bi, si, pl.get("p"), depth)
@@ -211,6 +214,14 @@ class Prov:
             return ("trybranch", args[0])
         if last == "key" and len(args) == 1:
             return ("call", "key", args)
+        # calls that receive a `&mut` borrow are not pure: keep their site identity
+        for a in t["a"]:
+            pl = op_place(a)
+            if pl is not None and "p" not in pl:
+                for d in self.defs.get(pl["l"], []):
+                    node = d[3]
+                    if node["k"] == "=" and (node["rv"].get("ref") is not None and node["rv"].get("m")):
+                        return ("call", path, args, bi)
         return ("call", path, args)
 
     def _rvalue(self, rv, bi, si, depth):
@@ -376,7 +387,7 @@ def show(t, full=False):
         return t[1]
     if k == "const":
         if t[2]:
-            return t[2].rsplit("::", 1)[-1] if not full else t[2]
+            return t[2].split("<")[0].rsplit("::", 1)[-1] if not full else t[2]
         return repr(t[1]) if not isinstance(t[1], int) else str(t[1])
     if k == "fn":
         return "fn " + (t[1] if full else short(t[1]))
@@ -389,7 +400,8 @@ def show(t, full=False):
     if k == "payload":
         return "%s@%s" % (show(t[1], full), t[2])
     if k == "call":
-        return "%s(%s)" % (t[1] if full else short(t[1]), ", ".join(show(a, full) for a in t[2]))
+        site = "#%d" % t[3] if len(t) > 3 else ""
+        return "%s%s(%s)" % (t[1] if full else short(t[1]), site, ", ".join(show(a, full) for a in t[2]))
     if k == "bin":
         return "(%s %s %s)" % (show(t[2], full), t[1], show(t[3], full))
     if k == "un":
